@@ -1535,10 +1535,16 @@ class ConeBeamGeometry(DivergentBeamGeometry, AxisOrientedGeometry):
         apart = part.byaxis[0]
         dpart = part.byaxis[1:]
 
+        curv = self.det_curvature_radius
+        if isinstance(self.detector, CylindricalDetector):
+            curv = (curv, None)
+        elif isinstance(self.detector, SphericalDetector):
+            curv = (curv, curv)
+
         return ConeBeamGeometry(apart, dpart,
                                 src_radius=self.src_radius,
                                 det_radius=self.det_radius,
-                                det_curvature_radius=self.det_curvature_radius,
+                                det_curvature_radius=curv,
                                 pitch=self.pitch,
                                 axis=self.axis,
                                 offset_along_axis=self.offset_along_axis,
